@@ -304,7 +304,12 @@ def run(ctx):
     from . import C10, C01
     C10.check_macros(ctx, ("Bitwise", "Bytewise", "ByteSwapped", "BitsSwapped"), "C16.R7", "C16.R7", "C16.R7")
     C01.derived_flag_formulas(ctx, "C16.R7")
-    ctx.floor("C16.R7", 80)
+    # the probe lazy parsing skips by is computed for this call's context: no _sizeof / _actualsize remembers a result (shared with C17.R1); and
+    # the default probe is the class's own size (shared with C05.R4)
+    from . import C17 as _C17, C05 as _C05
+    _C17.stateless_methods(ctx, "C16.R7", ("_sizeof", "_actualsize"))
+    _C05.default_probe(ctx, "C16.R7")
+    ctx.floor("C16.R7", 80 + 45)
 
     # ---------------------------------------------------------------- R4 clones
     def sigset(cls, meth, drop_discard=False):
